@@ -47,10 +47,10 @@ func c01Pred(c *core.Ctx, r *core.Reporter) {
 		return
 	}
 	type caseInfo struct {
-		call  *ssa.Call
-		pred  ssa.Value
-		skip  ssa.Value
-		kind  string
+		call *ssa.Call
+		pred ssa.Value
+		skip ssa.Value
+		kind string
 	}
 	var cases []caseInfo
 	for _, ci := range core.CallsTo(fn, pd, false) {
@@ -288,9 +288,9 @@ func c01Visited(c *core.Ctx, r *core.Reporter) {
 
 // gate functions and their correspondence planner <-> collector
 var gateCorr = map[string]string{
-	"planDirectives":      "directives",
-	"shouldIncludeNode":   "directives",
-	"planFragmentMatches": "type-condition",
+	"planDirectives":             "directives",
+	"shouldIncludeNode":          "directives",
+	"planFragmentMatches":        "type-condition",
 	"doesFragmentConditionMatch": "type-condition",
 }
 
